@@ -67,6 +67,12 @@ fn main() {
                 verif_dir: verif_dir.clone(),
                 lanes,
             };
+            ctx.rec.set_known(p.id, &ctx.known);
+            // a runaway allocation (possible when the library under test is broken) must not take the machine down
+            unsafe {
+                let lim = libc::rlimit { rlim_cur: 40 << 30, rlim_max: 40 << 30 };
+                libc::setrlimit(libc::RLIMIT_AS, &lim);
+            }
             sandbox::watchdog(tier.pick(1500, 6 * 3600));
             // committed regression replays first (seconds)
             props::run_regressions(&ctx, p);
